@@ -1,8 +1,8 @@
 (** Property C06 - unbounded MPMC queues are linearizable FIFO queues.
     Only statements here; proofs live in LV.Proofs.MSQueue{Base,Inv,Proofs} (MSQueue, MoirQueue),
     LV.Proofs.OptQueue{Inv,Proofs} (OptimisticQueue), LV.Proofs.RWQueueProofs (RWQueue).
-    NOT covered by a theorem here: BasketQueue and FCQueue (their real histories are decided by the verified
-    lincheck in checks/C06.py; FCQueue's theorem is to be assembled from the flat-combining kernel, C23).
+    BasketQueue: LV.Proofs.Basket{Base,Inv,Proofs}: structure and no loss / no duplication only (FIFO order
+    decided on real histories by the verified lincheck in checks/C06.py).  FCQueue: LV.Proofs.FcContainers (partial).
 
     HYPOTHESIS [smr_safe] (DESIGN section 4), built into the models LV.Model.MSQueue / OptQueue: nodes are abstract
     ids from a never-reusing allocator, i.e. no node is recycled while a validated hazard pointer can
@@ -20,6 +20,7 @@ From LV Require Import Base.Conc Base.Events Base.Lin Spec.Specs Proofs.LinProof
   Proofs.MSQueueBase Proofs.MSQueueInv Proofs.MSQueueProofs.
 From LV Require Model.RWQueue Proofs.RWQueueProofs Model.OptQueue Proofs.OptQueueInv Proofs.OptQueueProofs.
 From LV Require Model.FcKernel Model.FcBatch Proofs.FcKernelProofs Proofs.FcContainers.
+From LV Require Model.Basket Proofs.BasketBase Proofs.BasketInv Proofs.BasketProofs.
 Import ListNotations.
 Local Open Scope Z_scope.
 Local Open Scope string_scope.
@@ -183,6 +184,53 @@ Theorem C06_fcqueue_linearizable_partial :
 Proof. exact FcContainers.fcqueue_linearizable_partA. Qed.
 Print Assumptions C06_fcqueue_linearizable_partial.
 
+(** cds::container::BasketQueue (over intrusive::BasketQueue: enqueue with the basket-insertion branch and
+    try_again, do_dequeue with the hop loop and the logical-delete marks, free_chain), HP or DHP, item
+    counter on or off.  PARTIAL: proved for every schedule are the structure of the chain and "no loss, no
+    duplication"; the FIFO order (linearizability to [Fifo]) and the justification of "empty" answers are NOT
+    proved: a node that enters a basket is linked in front of nodes linked earlier, so its linearization point
+    lies before its own CAS and is only known in hindsight, and the abstract sequences of the alternative
+    traces differ (the tentative-LP invariant of MSQueueBase keeps ONE abstract state).  The full statement: *)
+Definition C06_basket_linearizable_statement : Prop :=
+  forall (cf : Basket.conf) (fuel : nat) (ths : list (list Basket.op)) c,
+    Conc.reach (Basket.init_cfg cf fuel ths) c -> linearizable Fifo (hist (Conc.trace c)).
+
+(** chain well-formedness: one duplicate-free null-terminated chain; the pointers leaving the nodes of the
+    deleted prefix are marked, all others are not; head sits in the deleted prefix, tail in the chain *)
+Theorem C06_basket_chain_wellformed :
+  forall cf fuel ths c, Conc.reach (Basket.init_cfg cf fuel ths) c ->
+    let g := Conc.shared c in
+    exists (dp : list nat) (b : nat) (lv : list nat) (hi : nat),
+      NoDup (dp ++ b :: lv) /\ linked (fun x => fst (Basket.nxt g x)) (dp ++ b :: lv) /\
+      (forall x, In x dp -> snd (Basket.nxt g x) = true) /\ (forall x, In x (b :: lv) -> snd (Basket.nxt g x) = false) /\
+      nth_error (dp ++ b :: lv) hi = Some (Basket.head g) /\ (hi <= List.length dp)%nat /\
+      In (Basket.tail g) (dp ++ b :: lv) /\
+      (forall n, In n (dp ++ b :: lv) -> (n < Basket.nalloc g)%nat).
+Proof. exact BasketProofs.basket_chain_wellformed. Qed.
+Print Assumptions C06_basket_chain_wellformed.
+
+(** no loss, no duplication: the undeleted nodes carry exactly the items of a pool-valid annotated trace of
+    the history: every enqueue put its item in once, at a point inside its call; every successful dequeue
+    removed the first undeleted item, at a point inside its call, and reports that item *)
+Theorem C06_basket_no_loss_no_dup :
+  forall cf fuel ths c, Conc.reach (Basket.init_cfg cf fuel ths) c ->
+    let g := Conc.shared c in
+    exists (dp : list nat) (b : nat) (lv : list nat) (atr : list BasketBase.pev) (f : BasketBase.pmap),
+      NoDup (dp ++ b :: lv) /\ linked (fun x => fst (Basket.nxt g x)) (dp ++ b :: lv) /\
+      (forall x, In x (b :: lv) -> snd (Basket.nxt g x) = false) /\
+      BasketBase.prun BasketBase.pinit atr = Some (map (Basket.val g) lv, f) /\
+      BasketBase.perase atr = hist (Conc.trace c).
+Proof. exact BasketProofs.basket_no_loss_no_dup. Qed.
+Print Assumptions C06_basket_no_loss_no_dup.
+
+(** "no item is invented" for BasketQueue *)
+Theorem C06_basket_no_invention :
+  forall cf fuel ths c, Conc.reach (Basket.init_cfg cf fuel ths) c ->
+    forall t v, In (@HRes Fifo t (RVal (Some v))) (hist (Conc.trace c)) ->
+                BasketBase.invoked (hist (Conc.trace c)) v.
+Proof. exact BasketProofs.basket_no_invention. Qed.
+Print Assumptions C06_basket_no_invention.
+
 (** non-vacuity: a concrete 3-thread run of MSQueue (item counter on, HP) with interleaved operations: one
     dequeue finds the queue empty, another thread dequeues the value 10; the history has 5 completed
     operations and is accepted by the verified checker *)
@@ -217,5 +265,13 @@ Example C06_optqueue_nonvacuous :
              [1;1;0;0;1;0;2;2;0;1;1;2;2;0;0;1;1;2;0;0;0;1;1;1;0;0;0;0;0;0;0;0;0;0;0;0;0;0;2;2;2;2;2;2;2;2;2;2;2;2;2]%nat 3000 in
   snd r = true /\
   List.length (hist (fst r)) = 10%nat /\
+  lincheck Fifo (hist (fst r)) = true.
+Proof. vm_compute. repeat split; auto. Qed.
+
+Example C06_basket_nonvacuous :
+  let r := Basket.run_case [0; 1; 1; 100] [[[1;10]; [2]]; [[2]; [1;20]]; [[1;30]; [2]]]
+             [1;1;0;0;1;0;2;2;0;1;1;2;2;0;0;1;1;2;0;0;0;1;1;1;0;0;0;0;2;2;0;0;2;2;0;0;2;2;0;0;2;2;2;2;2;2;2;2;2;2;2]%nat 4000 in
+  snd r = true /\
+  List.length (hist (fst r)) = 12%nat /\
   lincheck Fifo (hist (fst r)) = true.
 Proof. vm_compute. repeat split; auto. Qed.
